@@ -796,6 +796,12 @@ func TestCheck(t *testing.T) {
 		r.Finish()
 		return
 	}
+	// process history family: reload / unrelated edit / management mutation between boot and the request table,
+	// reference on the route order as written (history_test.go); early, so that a loaded machine never cuts it out
+	if !runHistoryFamily(r, ref, deadline) {
+		r.Finish()
+		return
+	}
 	// request path spelling family: request paths derived from the configured route paths, every spelling of
 	// dot-segments / empty segments / percent-encoded dots at every position (paths_test.go)
 	if !runPathFamily(r, deadline) {
@@ -990,6 +996,16 @@ func TestCheck(t *testing.T) {
 		"every response compared with the stateless reference; then every ordered pair (A, B) once more with B served completely inside A's first Header / WriteHeader / Write call on its ResponseWriter "+
 		"(deterministic overlap at the writer calls): status and Allow of A and of every nested B and the stored routes compared with the reference. Side pass (race_test.go, -race build): the same method family, one 3-route configuration per match shape and the host lists, "+
 		"served by 8 overlapping goroutines in phases 405-only / 404-only / 202-only / mixed; only the race detector judges. "+
+		"process history family: what happened to the gateway between boot and the request table is a dimension. Configurations: every ordered list of 1..3 routes with distinct paths over the pairwise overlapping "+
+		"paths {/, /a, /a/b} (thorough: plus /ab) x {bare, inbound{} (adjacent ones share one wrapper), outbound, internal} x {pull, deliver} as far as the documented channel rules allow (6 shapes; this includes "+
+		"the non-adjacent mixes inbound A, bare B, inbound C); match part: a route with each of the 12 match shapes (bare pull / inbound{} deliver) in front of and behind an open catch-all (thorough: x 2 paths x 11 partners); "+
+		"labelled part: lists of 2 (thorough: 2..3) routes whose file already carries application/endpoint_name on one route; thorough: lists of 1..2 routes over all 7 spellings (shorthand and wrapper twins). "+
+		"Operations on the running gateway: reload of the unchanged file (run()'s reloadNow), reload after a comment was appended, reload after a bare pull route on an unused path was appended last, reload after a "+
+		"deliver route was appended (documented restart-required), label route #i (PUT /applications/app1/endpoints/ep1 on the Admin handler startServers wired: parse -> label -> Format -> write -> reload), unlabel (DELETE). "+
+		"Sequences per configuration of n routes: reload>reload>comment, comment>append-pull>reload, append-deliver>reload, and for every i: label(i)>reload>unlabel>reload (labelled part: unlabel>reload, reload>unlabel, label(j)>reload for j != i); "+
+		"thorough adds label(i)>label(j)>reload for all i != j, append-pull>label(i)>reload, append-deliver>label(0)>reload, unlabel>reload, and on the 1..2-route lists EVERY sequence of 2 operations over the whole alphabet. "+
+		"The complete request table of the main family (path(10) x method(3), other dimensions when a matcher observes them) is served after boot and after EVERY operation; reference: the main resolver on the route list in the "+
+		"order the harness wrote it, appended routes behind it once the gateway has answered that the reload / mutation was applied (the gateway's answer decides only that; the rewritten file is never read for expectations). "+
 		"distinct_nontrivial counts (match shape, observed request value, reference verdict) classes, (route path, request path, verdict) classes and "+
 		"(channel tuple, winner position, status) classes reached by the reference")
 	r.Assume("main family: encoded slashes (%2F) and other percent-encoded path bytes are not in its alphabet; the request path spelling family sends them under a measured reading (see there)")
@@ -1000,6 +1016,9 @@ func TestCheck(t *testing.T) {
 		"request sequences are covered to the depth of all ordered pairs of consecutive requests of the method list family")
 	r.Assume("host family: raw UTF-8 and underscore labels are sent as they are (net/http's server would reject some of them before the handler; the resolver must still not match them to a foreign pattern); " +
 		"a Host with an empty label in front of the domain (\".d\") and patterns written with a port or a trailing dot are not in the alphabet (undefined by the docs)")
+	r.Assume("process history family: whether a reload or a management mutation is applied or refused is taken from the gateway's own answer (Reload result / Admin API \"applied\"), not demanded " +
+		"(restart-required rules belong to other properties); demanded is the resolution for that answer. Requests are served between operations, never during one (reload/request interleavings: C18; " +
+		"unsynchronised sharing: the -race side pass, which reloads while requests are in flight). MCP management tools and `config fmt` reach the same Format path but are not driven here")
 	r.Assume("405 needs an inbound route whose criteria other than the method all hold; Allow is compared as a set with the union of the methods of those routes (POST when none)")
 	r.Finish()
 }
@@ -1181,7 +1200,7 @@ func replay(r *runner.Run, path string, m *memo) {
 		r.Infra("replay: %v", err)
 		return
 	}
-	if replayCompose(r, b) || replayPaths(r, b) || replayHosts(r, b) || replayOverlap(r, b, m.ip) || replayMethods(r, b, m.ip) {
+	if replayCompose(r, b) || replayHistory(r, b, m) || replayPaths(r, b) || replayHosts(r, b) || replayOverlap(r, b, m.ip) || replayMethods(r, b, m.ip) {
 		return
 	}
 	var doc struct {
